@@ -98,8 +98,9 @@ where
 {
     let name = D::NAME;
     let n = m.n();
-    let a = D::build(m);
+    let a = D::build_classic(m);
     let (b, steps) = detour::<D>(r, m);
+    same(o, &a, &D::build(m), &format!("{name}(model-dependent construction route)"));
     same(o, &a, &b, &format!("{name}(detour history)"));
     same(o, &a, &D::build_alt(m), &format!("{name}(From<iter>)"));
     // conversion round trip
